@@ -30,6 +30,18 @@ def pairs():
                 yield fe, kind, u1, u2
 
 
+ALIAS2 = {'dro': ['EPW', 'PW', 'RC', 'RCL', 'EPWD', 'RCD'], 'ro': ['PW', 'RC', 'RCD']}
+
+
+def pairs2():
+    """ONE constraint object forall'ed twice with different sets, both results stated (kinds ..D: stated once as it
+    is, i.e. under the default set, and once with its own set); orders LS (large set first) and SL."""
+    for fe in sorted(ALIAS2):
+        for kind in ALIAS2[fe]:
+            for order in ('LS', 'SL'):
+                yield fe, kind, order
+
+
 # execution ------------------------------------------------------------------------------------
 FLOOR_T = -10.0
 CV = np.array([1.0, 0.5])
@@ -220,4 +232,94 @@ def run(case):
         if tb is None or not tb[k] > FLOOR_T + 1e-3:
             bind = False
     res.update(status='pass', outcome='equal', nontrivial=bool(bind and a[0] == 'opt'), validated=1)
+    return res
+
+
+# ---- one constraint OBJECT, two forall calls ------------------------------------------------------
+def _run2(fe, kind, order, shared):
+    R = C.R
+    rso = R['rso']
+    try:
+        dflt = kind.endswith('D')
+        k = kind[:-1] if dflt else kind
+        if fe == 'dro':
+            m = R['dro'].Model(2)
+            t = m.dvar()
+            y = m.dvar()
+            z = m.rvar(2)
+            y.adapt(z)
+            big = m.ambiguity()
+            big[0].suppset(z <= 2, z >= -2)
+            big[1].suppset(rso.norm(z, 2) <= 1.5)
+            small = m.ambiguity()
+            small.suppset(z <= 0.5, z >= -0.5)
+            # the DEFAULT set (objective) is the large one for ..D kinds stated first as they are
+            m.minsup(t + 0.25 * y, big)
+            m.st((y >= z @ CV).forall(big))
+            sets = [big, small]
+        else:
+            m = R['ro'].Model()
+            t = m.dvar()
+            y = m.ldr()
+            z = m.rvar(2)
+            y.adapt(z)
+            m.minmax(t + 0.25 * y, z <= 2, z >= -2)
+            m.st((y >= z @ CV).forall(z <= 2, z >= -2))
+            sets = [lambda: [z <= 2, z >= -2], lambda: [z <= 0.5, z >= -0.5]]
+
+        def mk():
+            if k == 'EPW':
+                return rso.E(rso.maxof(z @ CV + 1, -2 * (z @ CV))) <= t
+            if k == 'PW':
+                return rso.maxof(z @ CV + 1, -2 * (z @ CV)) <= t
+            if k == 'RC':
+                return z @ CV + 1 <= t
+            if k == 'RCL':
+                return y + 1 <= t
+            raise ValueError(k)
+
+        def attach(con, which):
+            s_ = sets[which]
+            return con.forall(s_) if fe == 'dro' else con.forall(s_())
+        first, second = (0, 1) if order == 'LS' else (1, 0)
+        c1 = mk()
+        c2 = c1 if shared else mk()
+        if dflt:            # stated once as it is (default = large set) and once with the small own set
+            if order == 'LS':
+                m.st(c1)
+                m.st(attach(c2, 1))
+            else:
+                m.st(attach(c1, 1))
+                m.st(c2 if not shared else c1)
+        else:
+            m.st(attach(c1, first))
+            m.st(attach(c2, second))
+        return C.solve_model(m, 'eco')
+    except Exception as ex:  # noqa
+        return ('raise', C.exc_class(ex))
+
+
+def run2(case):
+    fe, kind, order = case['fe'], case['kind'], case['order']
+    a = _run2(fe, kind, order, True)
+    b = _run2(fe, kind, order, False)
+    res = {'ops': 24, 'states': 2, 'transitions': 24}
+    tag = 'alias2|%s|%s|%s' % (fe, kind, order)
+    detail = 'one constraint object, two forall: %s ; two separately created constraints: %s' % (C.fmt(a), C.fmt(b))
+    if a[0] == 'raise' or b[0] == 'raise':
+        if a[0] == 'raise' and b[0] == 'raise':
+            res.update(status='unsupported', outcome='both_raise:' + a[1].split('(')[0], detail=detail)
+            return res
+        side = 'shared' if a[0] == 'raise' else 'fresh'
+        who = a if a[0] == 'raise' else b
+        res.update(status='violation', sig='%s|%s_raises:%s' % (tag, side, who[1]), detail=detail)
+        return res
+    c = C.compare_status(a, b, C.TOL_CONE)
+    if c == 'vacuous':
+        res.update(status='vacuous', outcome='solver:%s/%s' % (a[0], b[0]), detail=detail)
+        return res
+    if c == 'differ':
+        res.update(status='violation', sig=tag + '|value', detail=detail)
+        return res
+    res.update(status='pass', outcome='equal', nontrivial=bool(a[0] == 'opt'), validated=1)
     return res
